@@ -270,6 +270,77 @@ def long_recordings(r, quick):
     return evals, viol
 
 
+def other_forms(r, quick, prop):
+    """the same statements through other ways of building a reader: limits and hops given positionally (AudioReader(input,
+    block_dur, hop_dur, record, max_read), Recorder(input, block_dur, hop_dur, max_read)), and a recorder placed over a source
+    that is already open and partly consumed (it records what IT reads, from where the source stands)"""
+    from auditok.util import AudioReader, Recorder
+    from auditok.io import BufferAudioSource
+    evals, viol = 0, None
+
+    def drain(rd, limit=10000):
+        out = []
+        while len(out) < limit:
+            b = rd.read()
+            if b is None:
+                break
+            out.append(bytes(b))
+        return out
+    for _ in range(60 if quick else 600):
+        rate = r.choice([10, 100, 8000]); w, ch = r.choice([(1, 1), (2, 1), (2, 2), (4, 1)])
+        bps = w * ch
+        n = r.randint(0, 60)
+        data = bytes(r.getrandbits(8) for _ in range(n * bps))
+        W = r.randint(1, 7); H = r.choice([None] + list(range(1, W + 1)))
+        bd, hd = W / rate, (None if H is None else H / rate)
+        mr = r.choice([None, r.randint(0, 70) / rate, (r.randint(0, 70) + 0.5) / rate])
+        kw = dict(sr=rate, sw=w, ch=ch)
+        evals += 1
+        try:
+            ref = Recorder(data, block_dur=bd, hop_dur=hd, max_read=mr, **kw); ref.open(); ref_blocks = drain(ref); ref.rewind(); ref_data = bytes(ref.data)
+            pos = Recorder(data, bd, hd, mr, **kw); pos.open(); pos_blocks = drain(pos); pos.rewind(); pos_data = bytes(pos.data)
+            ar = AudioReader(data, bd, hd, True, mr, **kw); ar.open(); ar_blocks = drain(ar); ar.rewind(); ar_data = bytes(ar.data)
+            if viol is None and (pos_blocks != ref_blocks or pos_data != ref_data):
+                viol = {"what": "Recorder(input, %r, %r, %r) with the hop and the limit given positionally delivers %d blocks and records %d bytes; with keywords %d blocks and %d bytes" % (
+                    bd, hd, mr, len(pos_blocks), len(pos_data), len(ref_blocks), len(ref_data)), "rate": rate, "sw": w, "ch": ch, "samples": n}
+            if viol is None and (ar_blocks != ref_blocks or ar_data != ref_data):
+                viol = {"what": "AudioReader(input, %r, %r, True, %r) with positional arguments differs from the Recorder with keywords (%d / %d blocks, %d / %d bytes recorded)" % (
+                    bd, hd, mr, len(ar_blocks), len(ref_blocks), len(ar_data), len(ref_data)), "rate": rate, "sw": w, "ch": ch, "samples": n}
+        except Exception as e:
+            viol = viol or {"what": "building or reading a reader from positional arguments raised %s: %s" % (type(e).__name__, e)}
+        if prop != "C19" or n == 0:
+            continue
+        # a recorder over a source that has already been read from
+        pre = r.randint(1, n)
+        evals += 1
+        try:
+            src = BufferAudioSource(data, rate, w, ch); src.open(); src.read(pre)
+            rec = Recorder(src, block_dur=bd, hop_dur=hd, max_read=mr)
+            nread = r.randint(0, 12)
+            got = []
+            for _k in range(nread):
+                b = rec.read()
+                if b is None:
+                    break
+                got.append(bytes(b))
+            hop = W if H is None else H
+            consumed = b"" if not got else got[0] + b"".join(g[(W - hop) * bps:] for g in got[1:])
+            rec.rewind()
+            d = bytes(rec.data)
+            again = []
+            for _k in range(len(got)):
+                b = rec.read()
+                again.append(None if b is None else bytes(b))
+            if viol is None and d != consumed:
+                viol = {"what": "Recorder over a source already advanced by %d samples: after %d reads and rewind, data holds %d bytes starting %r..., the reads returned %d bytes starting %r..." % (
+                    pre, len(got), len(d), list(d[:6]), len(consumed), list(consumed[:6])), "rate": rate, "sw": w, "ch": ch, "samples": n, "block": W, "hop": H, "max_read": mr}
+            if viol is None and again != got:
+                viol = {"what": "Recorder over a source already advanced by %d samples: the replay after rewind differs from the first pass" % pre, "rate": rate, "sw": w, "ch": ch, "samples": n, "block": W, "hop": H}
+        except Exception as e:
+            viol = viol or {"what": "Recorder over an open, partly consumed source raised %s: %s" % (type(e).__name__, e)}
+    return evals, viol
+
+
 def histories(prop, n, W, H, quick):
     hop = W if H is None else H
     nb = 1 + max(0, n - W + hop - 1) // hop + 1
@@ -396,6 +467,10 @@ def run(prop, tier):
         res.notes["long_recordings"] = ev_l
         if viol is None and v_l:
             viol = v_l
+    ev_o, v_o = other_forms(r, quick, prop)
+    res.notes["positional_and_pre_consumed_forms"] = ev_o
+    if viol is None and v_o:
+        viol = v_o
     vm = C.vm_crosscheck(mcases, mouts, prop, 30)
     res.coverage.update({"evaluations": len(cases), "distinct_nontrivial": len(nontriv),
                          "rule": "exhaustive grid: source length 0..%d samples x block 1..%d x hop in {None, 1..block} x max_read in %r x record on/off x formats %r over buffer / raw-file / wav-file sources, with %s; non-trivial = distinct configuration+history returning at least one block" % (
